@@ -55,7 +55,12 @@ def scale_of(ks, cs, ring):
     return BIGTICK if (len(ks) * 7 + sum(cs) + ring) % 3 == 0 else 1
 
 
-def encode(ks, cs, wrap, scale=1):
+def base_of(ks, cs, ring):
+    """clock of model time 0: a fifth of the cases starts at clock ZERO (a legal clock value)"""
+    return 0 if (len(ks) * 3 + sum(cs) * 5 + ring) % 5 == 0 else BASE
+
+
+def encode(ks, cs, wrap, scale=1, base=BASE):
     """One byte string per event.  Every event that carries a payload has
     its (1-based) input position in it, so all such events differ bytewise.
     The region markers are the real ones: OU[ / OU] without payload.
@@ -63,7 +68,7 @@ def encode(ks, cs, wrap, scale=1):
     n = len(ks)
     out = []
     for i, (k, c) in enumerate(zip(ks, cs), 1):
-        clk = BASE + c * scale
+        clk = base + c * scale
         if k == "b":
             b = obs.ev("OU[", clk)
         elif k == "e":
@@ -131,7 +136,7 @@ def observe(bdir, ks, cs, ring, wrap, want_bytes=False, timeout=120, prelude=Fal
     try:
         td = os.path.join(d, "ovni")
         scale = scale_of(ks, cs, ring)
-        evs = encode(ks, cs, wrap, scale)
+        evs = encode(ks, cs, wrap, scale, base_of(ks, cs, ring))
         meta = obs.thread_meta(TID, TID, LOOM, cpus=[(0, 0)])
         pre_path = pre_bytes = None
         if prelude:
@@ -220,7 +225,7 @@ def show(ks, cs):
 
 def bundle(bdir, ks, cs, ring, wrap, extra=None):
     o = observe(bdir, ks, cs, ring, wrap, want_bytes=True)
-    b = {"case.json": {"ring": ring, "kinds": ks, "clocks": cs, "clock_base": BASE, "clock_scale": scale_of(ks, cs, ring), "wrap_OHx_OHe": wrap,
+    b = {"case.json": {"ring": ring, "kinds": ks, "clocks": cs, "clock_base": base_of(ks, cs, ring), "clock_scale": scale_of(ks, cs, ring), "wrap_OHx_OHe": wrap,
                        "run": "ovnisort -n %d <dir>; ovnisort -c <dir>; ovnisort -n %d <dir>; ovniemu -l <dir>"
                               % (ring, ring)},
          "observed.json": {k: v for k, v in o.items() if k not in ("_in", "_out")},
